@@ -109,3 +109,19 @@ class LA:
 
     def zero33(self):
         return [[{}, {}, {}] for _ in range(3)]
+
+
+THOROUGH = dict(base_points=4, max_terms=30000)   # thorough tier: 4 base points, k=2, up to 6 free-coordinate choices per base point
+
+
+def tier_caps(insts, tier):
+    """per-instance driver settings for the thorough tier (keeps the whole check inside its 30 min budget)"""
+    if tier == "thorough":
+        for i in insts:
+            for k, v in THOROUGH.items():
+                i.setdefault(k, v)
+    return insts
+
+
+def cap_sets(fs, tier, n=6):
+    return fs[:n] if tier == "thorough" else fs
